@@ -148,6 +148,62 @@ def result_vec(ck, rule, case, out):
     return v
 
 
+def numbers_in(v, acc):
+    """every number inside a (nested) parameter value"""
+    if isinstance(v, bool) or v is None or isinstance(v, str):
+        return acc
+    if isinstance(v, (int, Fr)):
+        acc.add(Fr(v))
+    elif isinstance(v, float):
+        if v == v and v not in (float('inf'), float('-inf')):
+            acc.add(Fr(v))
+    elif isinstance(v, dict):
+        for x in v.values():
+            numbers_in(x, acc)
+    elif isinstance(v, (list, tuple)):
+        for x in v:
+            numbers_in(x, acc)
+    else:
+        d = getattr(v, 'd', None)
+        if isinstance(d, tuple) and d and d[0] == 'num':
+            acc.add(d[1])
+    return acc
+
+
+def signature_numbers(ck, case):
+    """numeric literals in the defaults of the function's signature (e.g. the whole-globe bounding box of location_test)"""
+    import ast
+    fn = ck.runner.function(MODS.get(case.test, case.meta.get('module')), case.meta.get('qual', case.test))
+    node = getattr(fn, 'node', None)
+    acc = set()
+    if node is None:
+        return acc
+    for d in list(node.args.defaults) + [k for k in node.args.kw_defaults if k is not None]:
+        for sub in ast.walk(d):
+            if isinstance(sub, ast.Constant) and isinstance(sub.value, (int, float)) and not isinstance(sub.value, bool):
+                acc.add(Fr(sub.value))
+    return acc
+
+
+def decision_rule(ck, rule, case, out):
+    """Structural necessary condition of "flagged iff the value is beyond the limit" at the limit itself, in floating point: a comparison in
+    which observations take part has the *parameter as given* (or 0, or a truth value) on its other side - not a number computed from the
+    parameters (a centre and half-width, a threshold multiplied by the elapsed time ...): such a number is rounded, so a value exactly on the
+    limit can fall on the wrong side, although the two spellings agree over the reals (and therefore in this analyser's exact arithmetic)."""
+    evs = [e for e in getattr(out, 'events', []) if e['kind'] == 'data-compare']
+    if not evs:
+        return
+    allowed = numbers_in(case.kwargs, set()) | numbers_in(list(case.args), set()) | signature_numbers(ck, case)
+    allowed |= {-v for v in allowed} | {Fr(0)}
+    from .repo import unparse
+    for e in evs:
+        bad = sorted(v for k, v in e['shapes'] if k == 'num' and v not in allowed)
+        ck.ob(rule + '.decision', f'{case.label} {unparse(e["node"], 50) if e.get("node") is not None else ""}', not bad,
+              key=f'{fn_key(case)}:compared-with-a-derived-number',
+              what=f'{case.label}: `{unparse(e["node"], 70) if e.get("node") is not None else "?"}` compares observations with {[str(b) for b in bad[:3]]}, '
+                   f'computed from the parameters {sorted(str(a) for a in allowed if a >= 0)[:8]} instead of a parameter itself: at the limit the rounding of that number decides the flag')
+
+
 def compare_flags(ck, rule, case, vec, spec_pos, extra=None):
     """spec_pos(p) -> (spec_quantities, allowed_fn) or None to skip the position"""
     res = TableResult()
@@ -204,6 +260,8 @@ def table_rule(ck, rule, case, spec, scope='present'):
         ck.violate(rule + '.shape', f'{fn_key(case)}:length', f'{case.test} returns {len(vec)} flags for {case.n} inputs',
                    dict(case=case.label))
         return None
+    if scope != 'missing':
+        decision_rule(ck, rule, case, out)
 
     def pos(p):
         missing = spec.is_missing(p) if hasattr(spec, 'is_missing') else case.pat.get('inp', 'p' * case.n)[p] == 'm'
